@@ -412,6 +412,56 @@ fn lower_only(args: &[String]) {
     let _ = std::fs::remove_file(&tmp);
 }
 
+// translation validation of rules L / P: the lowered text of every function under contract is written back into a copy of
+// the real source files (nothing else is touched) so that the repository's own tests can be run against it
+//   vx --lower-crate REPO DESTDIR unit.vspec...
+fn lower_crate(args: &[String]) {
+    let repo = &args[0]; let dest = &args[1];
+    let mut want: BTreeMap<String, Vec<String>> = BTreeMap::new(); // file -> function names
+    for vs in &args[2..] {
+        let u = spec::parse_unit(&std::fs::read_to_string(vs).unwrap());
+        for (src, takes) in &u.sources { for t in takes { match t {
+            Take::Impl { fns, .. } => { for f in fns { if f != "*" && f != "consts" { want.entry(src.clone()).or_default().push(f.clone()); } } }
+            Take::Item { kind, name } if kind == "fn" => want.entry(src.clone()).or_default().push(name.clone()),
+            Take::Closure { fn_path, .. } => want.entry(src.clone()).or_default().push(fn_path.split("::").last().unwrap().to_string()),
+            _ => {}
+        } } }
+    }
+    let mut total = 0usize;
+    for (src, names) in &want {
+        let text = std::fs::read_to_string(format!("{}/{}", repo, src)).unwrap();
+        let mut file = syn::parse_file(&text).unwrap();
+        struct W<'a> { names: &'a [String], sites: usize, in_test: bool }
+        impl<'a> W<'a> {
+            fn lower_fn(&mut self, sig: &syn::Signature, block: &mut syn::Block) {
+                if self.in_test || !self.names.contains(&sig.ident.to_string()) { return; }
+                let vec_params: Vec<String> = sig.inputs.iter().filter_map(|a| match a { syn::FnArg::Typed(pt) => { let ty = pt.ty.to_token_stream().to_string(); if ty.starts_with("Vec <") { Some(pt.pat.to_token_stream().to_string()) } else { None } } _ => None }).collect();
+                let mut l = lower::Lower::new(vec_params); l.plain_rust = true;
+                l.visit_block_mut(block);
+                self.sites += l.sites;
+            }
+        }
+        impl<'a> VisitMut for W<'a> {
+            fn visit_impl_item_fn_mut(&mut self, f: &mut syn::ImplItemFn) { let sig = f.sig.clone(); self.lower_fn(&sig, &mut f.block); }
+            fn visit_item_fn_mut(&mut self, f: &mut syn::ItemFn) { let sig = f.sig.clone(); self.lower_fn(&sig, &mut f.block); }
+            fn visit_item_mod_mut(&mut self, m: &mut syn::ItemMod) { let was = self.in_test; if m.ident == "test" || m.ident == "tests" { self.in_test = true; } visit_mut::visit_item_mod_mut(self, m); self.in_test = was; }
+        }
+        let mut w = W { names, sites: 0, in_test: false };
+        w.visit_file_mut(&mut file);
+        total += w.sites;
+        // names markers are not Rust: drop them
+        struct D;
+        impl VisitMut for D { fn visit_block_mut(&mut self, b: &mut syn::Block) { b.stmts.retain(|s| !matches!(s, Stmt::Macro(m) if m.mac.path.is_ident("__vx_names"))); visit_mut::visit_block_mut(self, b); } }
+        D.visit_file_mut(&mut file);
+        let outp = format!("{}/{}", dest, src);
+        std::fs::create_dir_all(std::path::Path::new(&outp).parent().unwrap()).unwrap();
+        std::fs::write(&outp, file.to_token_stream().to_string()).unwrap();
+        let _ = std::process::Command::new("rustfmt").arg("--edition").arg("2021").arg(&outp).status();
+        eprintln!("vx: lowered {} ({} chains)", src, w.sites);
+    }
+    println!("{}", total);
+}
+
 pub struct FnOut {
     path: String, src: String, src_line: usize, contract_only: bool, from_unit: String,
     hints: usize, hint_kinds: BTreeMap<String, usize>, loops: usize, return_points: usize, probes: Vec<usize>, lowered_sites: usize, dead_probes: Vec<usize>,
@@ -700,6 +750,7 @@ fn take_renamed(t: &Take) -> Option<String> { if let Take::Impl { inherent_as: S
 fn main() {
     let mut args: Vec<String> = std::env::args().skip(1).collect();
     if args.first().map(|s| s.as_str()) == Some("--lower") { lower_only(&args[1..]); return; }
+    if args.first().map(|s| s.as_str()) == Some("--lower-crate") { lower_crate(&args[1..]); return; }
     let mut features: Vec<String> = vec![];
     let mut probes = false;
     let mut pos: Vec<String> = vec![];
